@@ -435,6 +435,72 @@ func SplitLoopSelfRef(p *core.Program) (*core.Program, bool) {
 	return q, n > 0
 }
 
+// ---- {ifempty} translated inside the loop's naming scope ---------------------------------
+
+func hasLoopHelper(v interface{}) bool {
+	found := false
+	var walk func(interface{})
+	walk = func(v interface{}) {
+		if found {
+			return
+		}
+		switch x := v.(type) {
+		case map[string]interface{}:
+			if x["k"] == "fn" && (x["name"] == "index" || x["name"] == "isFirst" || x["name"] == "isLast") {
+				found = true
+				return
+			}
+			for _, c := range x {
+				walk(c)
+			}
+		case []core.Cmd:
+			for _, c := range x {
+				walk(c)
+			}
+		case []interface{}:
+			for _, c := range x {
+				walk(c)
+			}
+		}
+	}
+	walk(v)
+	return found
+}
+
+func ifemptyBlock(cmds []core.Cmd, n *int) []core.Cmd {
+	out := []core.Cmd{}
+	for _, c := range cmds {
+		mapBodies(c, func(kind string, b []core.Cmd) []core.Cmd { return ifemptyBlock(b, n) })
+		if c["k"] == "foreach" {
+			em := c["empty"].(core.Cmd)
+			e := c["e"].(core.E)
+			isRange := e["k"] == "fn" && e["name"] == "range"
+			if em["has"].(bool) && !isRange && (mentions(em["body"], c["var"].(string)) || hasLoopHelper(em["body"])) {
+				*n++
+				tmp := fmt.Sprintf("%s_e%d", c["var"].(string), *n)
+				loop := core.CForeach(fmt.Sprint(c["kw"]), c["var"].(string), core.EVar(tmp), asCmds(c["body"]), core.Opt(false, nil))
+				out = append(out, core.CLetV(tmp, e),
+					core.CIf([]core.Cmd{core.CBr(core.EBin("gt", core.EFn("length", core.EVar(tmp)), core.EInt(0)), []core.Cmd{loop})}, core.Opt(true, asCmds(em["body"]))))
+				continue
+			}
+		}
+		out = append(out, c)
+	}
+	return out
+}
+
+// MoveIfEmptyOut rewrites {foreach $v in L}B{ifempty}E{/foreach}, E mentioning
+// $v (an outer binding of that name) or a loop helper, to
+// {let $t: L /}{if length($t) > 0}{foreach $v in $t}B{/foreach}{else}E{/if}.
+func MoveIfEmptyOut(p *core.Program) (*core.Program, bool) {
+	q := CloneProgram(p)
+	n := 0
+	for _, t := range q.Bundle {
+		t.Body = ifemptyBlock(t.Body, &n)
+	}
+	return q, n > 0
+}
+
 // ---- foreach over range() -----------------------------------------------------------
 
 func rangeBlock(cmds []core.Cmd, n *int, withEmpty bool) []core.Cmd {
